@@ -17,9 +17,13 @@ func genMutSpec(r *rand.Rand, tcp bool) MutSpec {
 	if tcp {
 		kinds = append(kinds, "truncate", "swap", "replay", "splice")
 	} else {
-		kinds = append(kinds, "reflect")
+		kinds = append(kinds, "reflect", "truncate", "truncate")
 	}
 	m.Kind = kinds[r.Intn(len(kinds))]
+	if m.Kind == "truncate" && !tcp {
+		// a datagram cut short in transit: favour cuts inside the paddings and the body
+		m.Region = pick(r, "pad1", "pad1", "pad1", "body", "pad2", "pad2", m.Region)
+	}
 	if m.Kind == "delete" && r.Intn(3) == 0 {
 		m.N = 100000 // to the end of the segment/datagram
 	}
